@@ -202,9 +202,31 @@ func runC03(args []string) int {
 				if mn == 0 && rg.chance(1, 2) {
 					continue // a later file_id of ANOTHER type is exercised separately (known finding)
 				}
-				mv, ok := newFilled(mn, 1+i*7+k)
+				mv, ok := newFilled(mn, rg.intn(1<<16))
 				if !ok {
 					continue
+				}
+				// small key-like values (indexes, ids) and verbatim / near repeats of earlier messages:
+				// routing must not look at them either
+				for fi := 0; fi < mv.NumField(); fi++ {
+					if fv := mv.Field(fi); fv.Kind() >= reflect.Uint8 && fv.Kind() <= reflect.Uint64 && rg.chance(1, 3) {
+						fv.SetUint(uint64(rg.intn(5)))
+					}
+				}
+				if len(seq) > 0 && rg.chance(1, 6) {
+					for _, j := range rg.perm(len(seq)) {
+						if seq[j].mn == mn {
+							mv.Set(seq[j].plain)
+							r.hist("add_repeat_of_earlier_msg")
+							if rg.bool() && mv.NumField() > 0 {
+								fi := rg.intn(mv.NumField())
+								if alt, ok := newFilled(mn, rg.intn(1<<16)); ok {
+									mv.Field(fi).Set(alt.Field(fi))
+								}
+							}
+							break
+						}
+					}
 				}
 				if mn == 0 {
 					// a repeated file_id of the file's own type: must leave the container alone
@@ -239,7 +261,11 @@ func runC03(args []string) int {
 				typeSeq = append(typeSeq, fmt.Sprint(mn))
 			}
 			stored := false
-			rep := map[string]interface{}{"entry": "File.add", "filetype": ft, "message_types": typeSeq, "salt": k}
+			var msgTexts []string
+			for _, a := range seq {
+				msgTexts = append(msgTexts, markerOf(a.plain))
+			}
+			rep := map[string]interface{}{"entry": "File.add", "filetype": ft, "message_types": typeSeq, "messages_in_order": msgTexts, "sequence_no": k}
 			for si, s := range slots {
 				if si == 0 {
 					continue
